@@ -513,6 +513,17 @@ def load_model(model_folder: str, model_name: str, compiler_options: Dict[str, s
     return model
 
 
+def _newest_source_mtime_ns(model_folder: str, compiler_options: Dict[str, str]):
+    newest = None
+    for folder in [model_folder] + compiler_options["library_folders"]:
+        for root, _dir, files in os.walk(folder, followlinks=True):
+            for item in fnmatch.filter(files, "*.mo"):
+                mtime_ns = os.stat(os.path.join(root, item)).st_mtime_ns
+                if newest is None or mtime_ns > newest:
+                    newest = mtime_ns
+    return newest
+
+
 def transfer_model(model_folder: str, model_name: str, compiler_options=None):
     compiler_options = _merge_default_options(compiler_options)
 
@@ -540,8 +551,17 @@ def transfer_model(model_folder: str, model_name: str, compiler_options=None):
         except (FileNotFoundError, InvalidCacheError):
             if raise_expand_warning:
                 logger.warning("Caching implies expanding to SX. Setting 'expand_mx' to True.")
+            # A source file that is modified while we are compiling must invalidate the
+            # cache we are about to write. Give the cache file the modification time of
+            # the newest source file as found before compiling, instead of the time at
+            # which it happens to be written.
+            sources_mtime_ns = _newest_source_mtime_ns(model_folder, compiler_options)
             model = _compile_model(model_folder, model_name, compiler_options)
             save_model(model_folder, model_name, model, compiler_options)
+            if sources_mtime_ns is not None:
+                db_file = os.path.join(model_folder, model_name + ".pymoca_cache")
+                with contextlib.suppress(OSError):
+                    os.utime(db_file, ns=(sources_mtime_ns, sources_mtime_ns))
             return model
     else:
         return _compile_model(model_folder, model_name, compiler_options)
